@@ -92,6 +92,8 @@ def expr(t):
         return '%s(%s)' % (t['op'], ', '.join(parts))
     if k == 'in':
         return '%s %s {%s}' % (operand(t['x']), 'not_in' if t['neg'] else 'in', ', '.join(const(v) for v in t['set']))
+    if k == 'exists':
+        return 'exists_in(%s, %s%s)' % (expr(t['l']), expr(t['r']), '' if t['retain'] == 'default' else ', ' + t['retain'])
     if k == 'if':
         return 'if %s then %s else %s' % (operand(t['c']), operand(t['t']), operand(t['e']))
     if k == 'case':
